@@ -180,7 +180,7 @@ ASSUME = [
 ]
 
 PROPS = {
-    "C13": dict(stages=[stage(c13_groups, 200, 20000)],
+    "C13": dict(stages=[stage(c13_groups, 600, 20000)],
                 rule="cases = groups: one document through many option tuples (all 16 log sets x algo x skip x url, from the TLC model); "
                      "non-trivial = calls that returned a result",
                 nontrivial_key="returned_result", assumptions=ASSUME, exhaustive_tiers=()),
